@@ -428,3 +428,34 @@ Fixpoint mwv_placed (N : list (note * bool)) (Os : list other) : list placed :=
       map place_other (fst (span_le (onset n) Os)) ++
       place_note n :: mwv_placed r (snd (span_le (onset n) Os))
   end.
+
+(* ---------------------------------------------------------------- the DECIDING measure check *)
+
+(* What the property says about one written measure, evaluated on the written stream itself (no
+   reference to the exporter's algorithm): read by the independent interpreter from the measure
+   start, the stream places every note of the score's measure at its onset with its duration (as
+   a multiset; the non-note elements are given with the positions read back from the stream) and
+   the reader's measure ends exactly at the measure's end.  Any exporter that writes a correct
+   file passes, whatever its document order, voice numbering or use of backup/forward. *)
+Definition placed_eqb (a b : placed) : bool :=
+  match a, b with
+  | PNote i s d, PNote i' s' d' => (i =? i') && (s =? s') && (d =? d')
+  | POther t s, POther t' s' => (t =? t') && (s =? s')
+  | _, _ => false
+  end.
+
+Definition count_p (x : placed) (l : list placed) : nat :=
+  List.length (filter (placed_eqb x) l).
+
+Definition mset_eqb (l l' : list placed) : bool :=
+  forallb (fun x => Nat.eqb (count_p x l) (count_p x l')) (l ++ l').
+
+Definition spec_measure_b (c : list (list note * list other) * Z * Z * list elem) : bool :=
+  match c with (segs, ms, me, E) =>
+    let (pl, s') := interp E (mkI ms ms ms) in
+    mset_eqb pl (flat_map seg_placed segs) && (imax s' =? me)
+  end.
+
+(* spec and model tie in one pass (the harness separates them when this is false) *)
+Definition check_measure_both (c : list (list note * list other) * Z * Z * list elem) : bool :=
+  spec_measure_b c && check_measure c.
